@@ -382,6 +382,30 @@ impl SignedPacketStore {
     }
 }
 
+#[cfg(iroh_verif)]
+impl SignedPacketStore {
+    /// Committed rows of both tables, read from a snapshot taken by the actor.
+    pub(crate) async fn verif_dump(&self) -> Result<crate::verif_hooks::StoreDump> {
+        use redb::ReadableMultimapTable;
+        let (tx, rx) = oneshot::channel();
+        self.send.send(Message::Snapshot { res: tx }).await.anyerr()?;
+        let snapshot = rx.await.anyerr()?;
+        let mut dump = crate::verif_hooks::StoreDump::default();
+        for row in snapshot.signed_packets.iter().anyerr()? {
+            let (k, v) = row.anyerr()?;
+            let packet = deserialize(v.value()).map(|p| p.as_bytes().to_vec());
+            dump.packets.push((*k.value(), packet.map_err(|e| format!("{e:#}"))));
+        }
+        for row in snapshot.update_time.iter().anyerr()? {
+            let (t, keys) = row.anyerr()?;
+            for key in keys {
+                dump.index.push((u64::from_be_bytes(t.value()), key.anyerr()?.value()));
+            }
+        }
+        Ok(dump)
+    }
+}
+
 /// Serialize a signed packet for storage: `<8 bytes last_seen><packet bytes>`.
 fn serialize(packet: &SignedPacket) -> Vec<u8> {
     let mut out = Vec::with_capacity(8 + packet.as_bytes().len());
@@ -483,6 +507,8 @@ async fn evict_task_inner(send: mpsc::Sender<Message>, options: Options) -> Resu
                     .anyerr()?;
             }
         }
+        #[cfg(iroh_verif)]
+        iroh_dns::verif::event("dnssrv.evict.scan_done", &[]);
         // sleep for the eviction interval so we don't constantly check
         tokio::time::sleep(options.eviction_interval).await;
     }
